@@ -3533,6 +3533,10 @@ impl Machine {
         loop {
             match iter.read_char() {
                 Some(Ok(c)) => {
+                    if c == '\n' {
+                        stream.add_lines_read(1);
+                    }
+
                     self.machine_st.unify_char(c, addr);
                     break;
                 }
@@ -3557,7 +3561,7 @@ impl Machine {
     #[inline(always)]
     pub(crate) fn get_n_chars(&mut self) -> CallResult {
         let _guard = RawReadGuard::new();
-        let stream = self.machine_st.get_stream_or_alias(
+        let mut stream = self.machine_st.get_stream_or_alias(
             self.machine_st.registers[1],
             &self.indices,
             atom!("get_n_chars"),
@@ -3602,6 +3606,10 @@ impl Machine {
 
                 match result {
                     Some(Ok(c)) => {
+                        if c == '\n' {
+                            stream.add_lines_read(1);
+                        }
+
                         string.push(c);
                     }
                     Some(Err(e)) => {
@@ -3715,6 +3723,10 @@ impl Machine {
 
             match result {
                 Some(Ok(c)) => {
+                    if c == '\n' {
+                        stream.add_lines_read(1);
+                    }
+
                     self.machine_st
                         .unify_fixnum(Fixnum::build_with(u32::from(c)), addr);
                     break;
